@@ -8,11 +8,64 @@ Section P.
     reader_rows c m limit sts raws fault = reader_rows c m limit sts' raws fault.
   Proof. reflexivity. Qed.
 
+  (* ---------- finalizing an earlier, unfinished run in the middle of a later one *)
+  Lemma run_rows_split_spec (c : cid CS) m limit : forall raws j s s2 oa ra rest,
+    run_rows_split c m limit j s raws = (s2, oa, ra, Some rest) ->
+    forall sf ob rb evs, run_rows c m limit s2 rest = (sf, ob, rb, evs) ->
+    exists evs', run_rows c m limit s raws = (sf, oa ++ ob, rb, evs').
+  Proof.
+    induction raws as [|row rest0 IH]; intros j s s2 oa ra rest H sf ob rb evs R.
+    - destruct j; cbn [run_rows_split] in H; [|discriminate].
+      injection H as <- <- _ <-. exists evs. exact R.
+    - destruct j as [|k'].
+      + cbn [run_rows_split] in H. injection H as <- <- _ <-. exists evs. exact R.
+      + cbn [run_rows_split] in H. cbn [run_rows].
+        destruct (step c m limit s row) as [[s' so] evs0]. destruct so as [[o|]|e]; [| |discriminate].
+        * destruct (run_rows_split c m limit k' s' rest0) as [[[sf' outs'] r'] susp'] eqn:E.
+          injection H as <- <- <- ->.
+          destruct (IH _ _ _ _ _ _ E _ _ _ _ R) as [evs' ->]. eexists. reflexivity.
+        * destruct (IH _ _ _ _ _ _ H _ _ _ _ R) as [evs' ->]. eexists. reflexivity.
+  Qed.
+
+  Lemma cleanups_id (cks : list (check CS)) : (forall ck st, In ck cks -> ck_clean ck st = st) ->
+    forall sts, cleanups cks sts = sts.
+  Proof.
+    induction cks as [|ck cks IH]; intros H sts; [destruct sts; reflexivity|].
+    destruct sts as [|st sts]; [reflexivity|]. cbn [cleanups]. rewrite H by (left; reflexivity).
+    rewrite IH; [reflexivity|]. intros ck' st' Hin. apply H. right. exact Hin.
+  Qed.
+
+  (* when clean-up leaves the state of a check alone (as it does for every built-in check), finalizing an unfinished
+     earlier run in the middle of a later run - at any point j, whatever the earlier run was - does not change the
+     later run's outcome *)
+  Lemma late_finalisation_harmless_lemma (c : cid CS) :
+    (forall ck st, In ck (c_checks c) -> ck_clean ck st = st) ->
+    forall sts first m limit raws fault j,
+    snd (exec c sts (OpLate first m limit raws fault j)) = snd (exec c sts (OpRows m limit raws fault)).
+  Proof.
+    intros Hclean sts first m limit raws fault j. cbn [exec].
+    destruct (run_rows_split c m limit j (start c) raws) as [[[s2 oa] ra] susp] eqn:E.
+    destruct j as [|j']; [reflexivity|].
+    destruct susp as [rest|]; [|reflexivity].
+    match goal with |- context [match ?p with Some l1 => _ | None => _ end] => destruct p as [l1|] end; [|reflexivity].
+    unfold close at 1. destruct (end_checks (c_checks c) 0 (rs_sts s2)) as [failed evs0].
+    rewrite (cleanups_id _ Hclean).
+    assert (W : with_sts s2 (rs_sts s2) = s2) by (destruct s2; reflexivity). rewrite W.
+    destruct (run_rows c m limit s2 rest) as [[[sf ob] rb] evsb] eqn:R.
+    destruct (run_rows_split_spec _ _ _ _ _ _ _ _ _ _ E _ _ _ _ R) as [evs' RR].
+    unfold api_rows, reader_rows. unfold start in RR. rewrite RR.
+    destruct (close c (rs_sts sf) (rs_loc sf)) as [[sts' ce] evs2]. reflexivity.
+  Qed.
+
   Lemma exec_outcome_independent (c : cid CS) (o : op) : forall sts sts', snd (exec c sts o) = snd (exec c sts' o).
-  Proof. intros sts sts'. destruct o as [m l r f|[[|n]|] r f|m l r f k|m l r f|rows [|]]; reflexivity. Qed.
+  Proof.
+    intros sts sts'. destruct o as [m l r f|[[|n]|] r f|m l r f k|m l r f|rows [|]|first m l r f j]; reflexivity.
+  Qed.
 
   Lemma exec_state_independent (c : cid CS) (o : op) : forall sts sts', fst (exec c sts o) = fst (exec c sts' o).
-  Proof. intros sts sts'. destruct o as [m l r f|[[|n]|] r f|m l r f k|m l r f|rows [|]]; reflexivity. Qed.
+  Proof.
+    intros sts sts'. destruct o as [m l r f|[[|n]|] r f|m l r f k|m l r f|rows [|]|first m l r f j]; reflexivity.
+  Qed.
 
   Lemma history_independent_lemma (c : cid CS) (h : list op) (o : op) : forall sts fresh,
     snd (exec c (history_state c sts h) o) = snd (exec c fresh o).
